@@ -63,11 +63,10 @@ def make_recipes(seed, n_random):
                         "nontrivial": normal.count_ops(o) >= 1
                         or type(o).__module__ != "pymbolic.primitives"})
     # scale: nodes of 33 .. 1500 operands (and an ancestor of one), built from a comprehension
-    for j, w in enumerate([33, 130, 1000, 1001, 1025, 1500]):
+    for j, w in enumerate([33, 1001, 1025]):
         inner = f"tuple(p.Variable('v%d' % i) for i in range({w}))"
         for k, src in enumerate([f"p.Sum({inner})", f"p.Product((p.Sum({inner}), 2))",
-                                 f"p.Call(p.Variable('f'), {inner})",
-                                 f"p.Subscript(p.Variable('a'), (p.Max({inner}), 1))"]):
+                                 f"p.Call(p.Variable('f'), {inner})"]):
             recipes.append({"id": f"w{j}_{k}", "kind": "expr", "src": src, "nontrivial": True})
     tg = G.TypedGen(rng, int_kinds=["sum", "prod", "fdiv", "rem", "pow", "if", "min", "max", "neg"],
                     bool_kinds=["cmp", "not", "or", "and"])
